@@ -513,16 +513,20 @@ def gen_sequences(theme, depth):
 def script_jobs(tier, seed, themes=None):
     """bounded-exhaustive symbolic sequences -> harness script jobs"""
     depth = 3 if tier == "quick" else 4
-    geos = ["th4", "th1"] if tier == "quick" else ["th4", "th1", "th2", "th8"]
+    geos = ["th4", "th1"] if tier == "quick" else ["th4", "th1", "th2"]
     jobs, nseq, states = [], 0, 0
     os.makedirs(vlib.WORK, exist_ok=True)
     for theme in (themes or GEN_THEMES):
         # the Cursor theme has 6 letters and needs 5 steps (reserve, move the cursor, refill, allocate)
-        seqs, st = gen_sequences(theme, depth + 2 if theme in ("Cursor", "Full") else depth)
+        # the Cursor / Full themes have 6-7 letters and need 5 steps (reserve, move, refill, allocate ...)
+        d = depth
+        if theme in ("Cursor", "Full"):
+            d = 5 if tier == "quick" or theme == "Full" else 6
+        seqs, st = gen_sequences(theme, d)
         states += st[1]
         nseq += len(seqs)
         cfgs = GEN_THEMES[theme]
-        per = 1 if tier == "quick" else len(cfgs)
+        per = 1 if tier == "quick" else min(2, len(cfgs))
         chunk = 450
         for gi, g in enumerate(geos):
             lines = []
@@ -583,13 +587,16 @@ def fine_stage(res, tier, seed, prop):
         mod = mkmc.make(n, g, invariants=invs)
         if not mod:
             return None
-        rc, out, dt = vlib.tlc(mod, workers=4, xmx="8g", timeout=3000 if tier == "quick" else 20000)
+        rc, out, dt = vlib.tlc(mod, workers=4, xmx="8g", timeout=1500 if tier == "quick" else 5400)
         gen, dist = vlib.tlc_stats(out)
         r = {"scn": n, "geo": g, "states": dist, "generated": gen, "s": round(dt, 1), "result": "ok"}
         err = re.search(r"Invariant (\w+) is violated", out)
         if err:
             r["result"] = "violated:" + err.group(1)
             r["sched"] = fine_schedule(out)
+        elif rc == 124 or "No error has been found" not in out and "states generated" not in out[-3000:]:
+            r["result"] = "timeout" if rc == 124 else "error"
+            r["detail"] = out[-800:]
         elif "No error has been found" not in out:
             r["result"] = "error"
             r["detail"] = out[-800:]
@@ -613,6 +620,9 @@ def fine_stage(res, tier, seed, prop):
                 % (r["scn"], r["geo"], c.get("at"), c.get("event")))
         elif c.get("status") == "error":
             raise vlib.ToolError("step conformance failed for %s: %s" % (r["scn"], c.get("detail")))
+        if r["result"] == "timeout":
+            fine.setdefault("timeouts", []).append({"scn": r["scn"], "geo": r["geo"]})
+            res.notes.append("FINE exhaustive run of %s (%s) did not finish within the time limit (inconclusive)" % (r["scn"], r["geo"]))
         if r["result"] == "error":
             raise vlib.ToolError("FINE model check failed for %s/%s:\n%s" % (r["scn"], r["geo"], r.get("detail")))
         if r["result"].startswith("violated"):
